@@ -41,6 +41,7 @@ B62 = string.digits + string.ascii_uppercase + string.ascii_lowercase
 DEFAULT_ALPHABET = string.digits + string.ascii_uppercase
 K5 = "K5"
 NATIVE = "C13-native-literal"
+XSHAPE = "C13-cross-shape"
 
 
 # ================================================================ generation
@@ -155,6 +156,11 @@ def _pid(rng):
     return rng.choice([None, None, 0, 1, 3, 8, 64, 3333333333333333, rng.randint(0, 10 ** 9)])
 
 
+def _ctx0(rng):
+    return rng.choice([1, 1, 2, 6, 7, 8, 60, 63, 64, 500, 511, 512, 4095, 4096, rng.randint(1, 10 ** 6),
+                       rng.randint(1, 10 ** 12)])
+
+
 def gen_process(rng, tier, malformed=False):
     ngen = rng.randint(1, 4)
     gens = []
@@ -197,7 +203,7 @@ def gen_process(rng, tier, malformed=False):
         ks.update(rng.randrange(t) for _ in range(16) if t)
         ks.update(k for k in (t - 1, 7, 8, 63, 64, 511, 512, 4095) if 0 <= k < t)
         sample[str(gi)] = sorted(ks)
-    return {"kind": "gens", "gens": gens, "schedule": schedule, "sample": sample}
+    return {"kind": "gens", "gens": gens, "schedule": schedule, "sample": sample, "ctx0": _ctx0(rng)}
 
 
 def gen_recipe(rng):
@@ -228,7 +234,7 @@ def gen_recipe(rng):
     if not fields:
         fields = ["unique_id", "unique_alpha_code"]
     return {"kind": "recipe", "big": big, "pid": pid, "vars": vars_, "fields": fields,
-            "count": rng.randint(1, 6), "iterations": rng.randint(1, 4)}
+            "count": rng.randint(1, 6), "iterations": rng.randint(1, 4), "ctx0": _ctx0(rng)}
 
 
 def generate(rng, tier):
@@ -384,8 +390,20 @@ def _gen_attrs(g, typ):
             "randomize": d.get("randomize"), "parts": d.get("parts")}
 
 
+def _set_ctx0(U, case):
+    """Start the process-wide generator counter at case["ctx0"] (if the class still has that counter): gives
+    reproducible witnesses and context numbers of every magnitude.  The context numbers actually used are
+    observed per generator, never assumed."""
+    import itertools
+    ctx0 = case.get("ctx0")
+    cls = getattr(U, "UniqueNumericIdGenerator", None)
+    if isinstance(ctx0, int) and cls is not None and isinstance(getattr(cls, "context_uniqifier", None), itertools.count):
+        cls.context_uniqifier = itertools.count(ctx0)
+
+
 def _run_process(case):
     import snowfakery.standard_plugins.UniqueId as U
+    _set_ctx0(U, case)
     gens_obs, objs = [], []
     with _observe() as (ev, have):
         for spec in case["gens"]:
@@ -500,6 +518,7 @@ def recipe_text(case):
 def _run_recipe(case):
     import snowfakery.standard_plugins.UniqueId as U
     from snowfakery import generate_data
+    _set_ctx0(U, case)
     F = U.UniqueId.Functions
     created = []          # (type, kwargs, args, object)
     draws = {}            # id(obj) -> list of draw records
@@ -828,23 +847,28 @@ def _shape(tpl):
 
 
 def _recipe_sources(case):
-    """field index -> (type, default_template?, unique_by_design?, alphabet, min_chars)"""
+    """per field: type, default template?, claimed unique?, template shape, alphabet, min_chars, randomize flag"""
     byname = {v["name"]: v for v in case["vars"]}
+    big = bool(case["big"])
+    dnum = ("PPid", "PContext", "PIndex") if big else ("PContext", "PIndex")
+    dalpha = ("PPid", "PContext", "PIndex") if big else ("PIndex",)
     out = []
     for s in case["fields"]:
         if s in ("unique_id", "UniqueId.unique_id"):
-            out.append({"type": "num", "default": True, "unique": True})
+            out.append({"type": "num", "default": True, "unique": True, "shape": dnum})
         elif s == "unique_alpha_code":
-            out.append({"type": "alpha", "default": True, "unique": True, "alphabet": DEFAULT_ALPHABET, "min_chars": 8})
+            out.append({"type": "alpha", "default": True, "unique": True, "shape": dalpha,
+                        "alphabet": DEFAULT_ALPHABET, "min_chars": 8, "rc": True})
         else:
             v = byname[s]
             tpl = v["template"]
-            shape = _shape(tpl) if tpl else None
+            shape = _shape(tpl) if tpl else (dnum if v["type"] == "num" else dalpha)
             unique = (not tpl) or (shape is not None and "PContext" in shape and "PIndex" in shape)
-            d = {"type": v["type"], "default": not tpl, "unique": unique}
+            d = {"type": v["type"], "default": not tpl, "unique": unique, "shape": shape}
             if v["type"] == "alpha":
                 d["alphabet"] = v["alphabet"] or DEFAULT_ALPHABET
                 d["min_chars"] = 8 if v["min_chars"] is None else v["min_chars"]
+                d["rc"] = v["randomize_codes"] is not False
             out.append(d)
     return out
 
@@ -870,15 +894,15 @@ def _native(code):
 
 
 def _recipe_failures(case, obs):
-    """(other_failures, k5_collisions, native_mangled)
+    """(other_failures, k5_collisions, native_mangled, cross_shape_collisions)
     K5 = collisions among alpha codes that all come from alpha generators created WITHOUT a template in
     small-id mode.  native_mangled = (native-types recipes only) alpha field values that are not the code the
     generator returned but the value of that code read as a Python literal."""
-    other, k5, mangled = [], [], []
+    other, k5, mangled, xshape = [], [], [], []
     if "err" in obs:
         if obs["err"] == "DGE" and _min_bits_too_small(case):
-            return [], [], []     # scramble_number's own `assert minbits >= 10` (an error, not a collision)
-        return [f"recipe: a valid recipe failed with {obs['err']}"], [], []
+            return [], [], [], []     # scramble_number's own `assert minbits >= 10` (an error, not a collision)
+        return [f"recipe: a valid recipe failed with {obs['err']}"], [], [], []
     rows = obs["rows"]
     src = _recipe_sources(case)
     expected_rows = case["count"] * case["iterations"]
@@ -905,8 +929,11 @@ def _recipe_failures(case, obs):
                     continue
                 if s["unique"]:
                     if v in seen_num:
-                        other.append(f"recipe: numeric id {v} appears twice: row {seen_num[v][0]} f{seen_num[v][1]} "
-                                     f"and row {ri} f{fi}")
+                        pri, pfi = seen_num[v]
+                        if src[pfi]["shape"] != s["shape"]:
+                            xshape.append((v, (pri, pfi), (ri, fi)))
+                        else:
+                            other.append(f"recipe: numeric id {v} appears twice: row {pri} f{pfi} and row {ri} f{fi}")
                     seen_num.setdefault(v, (ri, fi))
             else:
                 code = str(v)      # the output layer turns all-digit strings without a leading 0 into ints
@@ -930,11 +957,13 @@ def _recipe_failures(case, obs):
                         pri, pfi = seen_alpha[key]
                         if small and s["default"] and src[pfi]["default"]:
                             k5.append((code, (pri, pfi), (ri, fi)))
+                        elif src[pfi]["shape"] != s["shape"] or src[pfi]["rc"] != s["rc"]:
+                            xshape.append((code, (pri, pfi), (ri, fi)))
                         else:
                             other.append(f"recipe: alpha code {code!r} appears twice: row {pri} f{pfi} and "
                                          f"row {ri} f{fi}")
                     seen_alpha.setdefault(key, (ri, fi))
-    return other, k5, mangled
+    return other, k5, mangled, xshape
 
 
 def oracle(case, obs):
@@ -994,7 +1023,9 @@ def oracle(case, obs):
             if spec["type"] == "num" and o["nerr"] and (spec["pid"] is None or spec["pid"] >= 0):
                 return (f"gens: numeric generator {gi} (template {spec['template']!r}, pid {spec['pid']}) raised "
                         f"{o['errs']} on ordinary draws")
-            if "PIndex" in shape and o["dup_within"] is not None:
+            abc_i = (spec.get("alphabet") or DEFAULT_ALPHABET) if spec["type"] == "alpha" else ""
+            dupfree = len(set(abc_i)) == len(abc_i)     # injectivity is only claimed for duplicate-free alphabets
+            if "PIndex" in shape and o["dup_within"] is not None and dupfree:
                 a, b, v = o["dup_within"]
                 return (f"gens: generator {gi} (template {spec['template']!r}) produced {v!r} twice: draws {a} "
                         f"and {b}")
@@ -1019,9 +1050,14 @@ def oracle(case, obs):
                     f"produced {v!r} (draws {ki} and {kj})")
         return None
     if kind == "recipe":
-        other, k5, mangled = _recipe_failures(case, obs)
+        other, k5, mangled, xshape = _recipe_failures(case, obs)
         if other:
             return other[0]
+        if xshape:
+            v, a, b = xshape[0]
+            return (f"cross-shape-class: generators with different template shapes both produced {v!r} "
+                    f"(row {a[0]} f{a[1]}: {case['fields'][a[1]]}, row {b[0]} f{b[1]}: {case['fields'][b[1]]}); "
+                    f"{len(xshape)} such collisions")
         if mangled:
             v, c, ri, fi = mangled[0]
             return (f"native-literal-class: snowfakery_version 3 emitted the alpha code {c!r} as {v!r} "
@@ -1040,20 +1076,24 @@ def violation_class(case, obs, msg):
 def match_finding(case, obs, msg, findings):
     """K5: a recipe in small-id mode whose ONLY failures are repeated codes among alpha generators that were
     created without a template (unique_alpha_code / default UniqueId.AlphaCodeGenerator).
+    C13-cross-shape: a recipe whose ONLY failures (besides the classes above) are equal values from two generators
+    whose template shapes differ (e.g. `index,context` against the default `context,index`).
     C13-native-literal: a `snowfakery_version: 3` recipe whose ONLY failures are alpha field values that equal
     ast.literal_eval(code) of a code the generator really returned (and that code itself is fine)."""
     ids = {f.get("id") for f in findings}
     if case.get("kind") != "recipe" or not isinstance(msg, str):
         return None
     try:
-        other, k5, mangled = _recipe_failures(case, obs)
+        other, k5, mangled, xshape = _recipe_failures(case, obs)
     except Exception:
         return None
     if other:
         return None
-    if msg.startswith("native-literal-class") and NATIVE in ids and case.get("native") and mangled:
+    if msg.startswith("cross-shape-class") and XSHAPE in ids and xshape:
+        return XSHAPE
+    if msg.startswith("native-literal-class") and NATIVE in ids and case.get("native") and mangled and not xshape:
         return NATIVE
-    if msg.startswith("K5-class") and K5 in ids and not case.get("big") and k5 and not mangled:
+    if msg.startswith("K5-class") and K5 in ids and not case.get("big") and k5 and not mangled and not xshape:
         return K5
     return None
 
